@@ -54,6 +54,23 @@ func (o op) label() string {
 	return o.Kind
 }
 
+// opRef is an operation as lib.BFS stores it in its frontier: an index into
+// opTable (histories of full op structs would cost ~100 bytes per operation).
+// In replay files it is written as the full operation.
+type opRef uint8
+
+var opTable []op
+
+func (r opRef) MarshalJSON() ([]byte, error) { return json.Marshal(opTable[r]) }
+
+func derefOps(refs []opRef) []op {
+	hist := make([]op, len(refs))
+	for i, r := range refs {
+		hist[i] = opTable[r]
+	}
+	return hist
+}
+
 const (
 	baseHour     = uint32(480013) // 480013 % 24 = 13
 	initialLimit = uint32(3)      // hours
@@ -557,7 +574,9 @@ var bfsCtx *lib.Ctx
 // exec replays hist on a fresh instance and checks the oracle after the last
 // operation.  Safe for concurrent use: every call has its own directory,
 // StatsCtx and virtual hour.
-func exec(hist []op) (st lib.Step) {
+func exec(refs []opRef) lib.Step { return execOps(derefOps(refs)) }
+
+func execOps(hist []op) (st lib.Step) {
 	c := bfsCtx
 	m := newModel()
 	last := op{Kind: "init"}
@@ -659,7 +678,12 @@ func phaseBFS(c *lib.Ctx) {
 	}
 	c.Note("bfs_alphabet", fmt.Sprintf("%d operations: %s; initial limit %d h, base hour %d", len(ops), strings.Join(labels, " "), initialLimit, baseHour))
 	c.Note("bfs_depth_bound", fmt.Sprint(depth))
-	b := &lib.BFS[op]{C: c, Ops: ops, Exec: exec, MaxDepth: depth, Workers: runtime.GOMAXPROCS(0), Confirm: true}
+	opTable = ops
+	refs := make([]opRef, len(ops))
+	for i := range ops {
+		refs[i] = opRef(i)
+	}
+	b := &lib.BFS[opRef]{C: c, Ops: refs, Exec: exec, MaxDepth: depth, Workers: runtime.GOMAXPROCS(0), Confirm: true}
 	b.Run()
 }
 
@@ -671,7 +695,7 @@ func replayBFS(c *lib.Ctx, raw json.RawMessage) string {
 	if err := json.Unmarshal(raw, &hist); err != nil {
 		return err.Error()
 	}
-	st := exec(hist)
+	st := execOps(hist)
 	if st.VKey != "" {
 		return st.VKey + ": " + st.VDesc
 	}
